@@ -421,10 +421,10 @@ def run_shards(mod, shards, nproc=NPROC):
             w[0].join(2)
             if w[0].is_alive():
                 w[0].kill()
-    for idx, shard in bad[:2]:
+    for idx, shard in bad[:6]:
         total.merge(_isolate(mod, idx, shard, min(timeout, 600)))
-    if len(bad) > 2:
-        total.notes.append("%d further shards killed their worker; only 2 isolated" % (len(bad) - 2))
+    if len(bad) > 6:
+        total.notes.append("%d further shards killed their worker; only 6 isolated" % (len(bad) - 6))
     return total
 
 
